@@ -61,7 +61,7 @@ impl Distribution<PushGene> for TagGen {
         let s = self.serial.get();
         self.serial.set(s + 1);
         let c = rng.random_range(0..self.g);
-        PushGene::Instruction(PushInstruction::push_int(1000 + 10 * s as i64 + c as i64))
+        PushGene::Instruction(PushInstruction::push_int(NEW_BASE + 10 * s as i64 + c as i64))
     }
 }
 
@@ -116,8 +116,8 @@ pub fn umad_once(gk: GenomeKind, kind: UmadKind, a: f64, d: f64, g: usize, l: us
                     PushGene::Instruction(PushInstruction::IntInstruction(ii)) => {
                         let s = format!("{ii}");
                         let v: i64 = s.trim_start_matches("Push(").trim_end_matches(')').parse().unwrap_or(-1);
-                        if v >= 1000 {
-                            Gene::New { serial: ((v - 1000) / 10) as usize, choice: ((v - 1000) % 10) as usize }
+                        if v >= NEW_BASE {
+                            Gene::New { serial: ((v - NEW_BASE) / 10) as usize, choice: ((v - NEW_BASE) % 10) as usize }
                         } else if v >= 0 {
                             Gene::Old(v as usize)
                         } else {
@@ -142,8 +142,8 @@ pub fn umad_once(gk: GenomeKind, kind: UmadKind, a: f64, d: f64, g: usize, l: us
                     PushGene::Instruction(PushInstruction::IntInstruction(ii)) => {
                         let s = format!("{ii}");
                         let v: i64 = s.trim_start_matches("Push(").trim_end_matches(')').parse().unwrap_or(-1);
-                        if v >= 1000 {
-                            Gene::New { serial: ((v - 1000) / 10) as usize, choice: ((v - 1000) % 10) as usize }
+                        if v >= NEW_BASE {
+                            Gene::New { serial: ((v - NEW_BASE) / 10) as usize, choice: ((v - NEW_BASE) % 10) as usize }
                         } else if v >= 0 {
                             Gene::Old(v as usize)
                         } else {
@@ -483,7 +483,9 @@ pub fn umad_long_case(gk: GenomeKind, a: (u32, u32), d: (u32, u32), l: usize, de
     let mut kept = vec![false; l];
     let mut deleted = vec![false; l];
     let mut inserted_after = vec![false; l];
-    let st = explore_bounded(
+    // beyond 600 genes only the first 24 words deviate (the tail stream decides the rest): per-leaf oracle only
+    let huge = l > 600;
+    let st = mcx::explore_bounded_h(
         |env| umad_once(gk, UmadKind::Plain, rate(a), rate(d), 2, l, env, Alphabet::Ext(2), false),
         |_, r| match r {
             Err(p) => {
@@ -494,6 +496,7 @@ pub fn umad_long_case(gk: GenomeKind, a: (u32, u32), d: (u32, u32), l: usize, de
             Ok((out, produced)) => {
                 if let Some((k, w)) = umad_structure(&out, produced, l, UmadKind::Plain, a, d, 2) {
                     if bad.is_none() {
+                        let w: String = w.chars().take(600).collect();
                         bad = Some((format!("umad/{k}"), format!("{label}: {w}")));
                     }
                 }
@@ -526,10 +529,14 @@ pub fn umad_long_case(gk: GenomeKind, a: (u32, u32), d: (u32, u32), l: usize, de
             }
         },
         dev,
+        if huge { 24 } else { usize::MAX },
         5_000_000,
     );
     if st.capped {
         return (st.leaves, st.choice_points, Some(("machinery/cap".into(), format!("{label}: capped"))), 0);
+    }
+    if huge {
+        return (st.leaves, st.choice_points, bad, 2);
     }
     if bad.is_none() && d.0 > 0 && d.0 < d.1 {
         let never_kept: Vec<usize> = (0..l).filter(|i| !kept[*i]).collect();
@@ -645,6 +652,49 @@ pub fn flip_case(fk: FlipKind, ool: bool, r: (u32, u32), l: usize, m: u32) -> (u
 
 /// `m` >= EXT encodes the alphabet Ext(m - EXT): the grid plus the two extreme words
 pub const EXT: u32 = 1000;
+/// integer literals from here on are generated genes (parent genes carry their position, below this)
+pub const NEW_BASE: i64 = 1 << 40;
+/// Long genomes for the flip mutators: the structural oracle (same length, every gene unchanged or negated,
+/// rate 0 the identity, rate >= 1 everything flipped) on every stream with at most one non-default word
+/// among the first 24 over the extended grid.
+pub fn flip_long_case(fk: FlipKind, ool: bool, r: (u32, u32), l: usize) -> (u64, u64, Option<(String, String)>, usize) {
+    let name = if ool { "with_one_over_length" } else { "with_rate" };
+    let label = format!("{name} {fk:?} rate {}/{} length {l} (long)", r.0, r.1);
+    let mut bad: Option<(String, String)> = None;
+    let mut any_flip = false;
+    let mut any_keep = false;
+    let st = mcx::explore_bounded_h(
+        |env| flip_once(fk, ool, r.0 as f32 / r.1 as f32, l, env, Alphabet::Ext(2)),
+        |_, o| {
+            let v = match o {
+                Err(p) => Some(("panic", format!("panicked: {p}"))),
+                Ok(Err(e)) => Some(("structure", e.chars().take(300).collect())),
+                Ok(Ok(mask)) => {
+                    any_flip |= mask.iter().any(|b| *b);
+                    any_keep |= mask.iter().any(|b| !*b);
+                    if !ool && r.0 == 0 && mask.iter().any(|b| *b) {
+                        Some(("rate0-identity", format!("rate 0 flipped gene {:?}", mask.iter().position(|b| *b))))
+                    } else if !ool && r.0 >= r.1 && mask.iter().any(|b| !*b) {
+                        Some(("rate1-all-flipped", format!("rate >= 1 left gene {:?} unflipped", mask.iter().position(|b| !*b))))
+                    } else {
+                        None
+                    }
+                }
+            };
+            if let (Some((k, w)), true) = (v, bad.is_none()) {
+                bad = Some((format!("{name}/long/{k}"), format!("{label}: {w}")));
+            }
+        },
+        1,
+        24,
+        100_000,
+    );
+    if let Some(d) = &st.diverged {
+        return (st.leaves, st.choice_points, Some((format!("{name}/nondeterministic"), format!("{label}: {d}"))), 1);
+    }
+    (st.leaves, st.choice_points, bad, 1 + usize::from(any_flip && any_keep))
+}
+
 pub fn alphabet_of(m: u32) -> Alphabet {
     if m >= EXT {
         Alphabet::Ext(m - EXT)
@@ -654,6 +704,7 @@ pub fn alphabet_of(m: u32) -> Alphabet {
 }
 
 pub enum Case {
+    FlipLong(FlipKind, bool, (u32, u32), usize),
     UmadReuse((u32, u32), (u32, u32), (u32, u32), usize, bool, u32),
     UmadLong(GenomeKind, (u32, u32), (u32, u32), usize, usize),
     Flip(FlipKind, bool, (u32, u32), usize, u32),
@@ -677,6 +728,24 @@ pub fn cases(quick: bool) -> Vec<Case> {
                     v.push(Case::Flip(fk, false, *r, l, EXT + 2));
                 }
                 v.push(Case::Flip(fk, true, (1, l.max(1) as u32), l, EXT + l.max(1) as u32));
+            }
+        }
+    }
+    {
+        let lens: Vec<usize> = if quick { (9usize..=70).chain([127, 128, 129, 255, 256, 257, 1000, 4097, 65_537]).collect() } else { (9usize..=300).chain([511, 512, 513, 1000, 4096, 4097, 65_535, 65_536, 65_537, 100_003]).collect() };
+        for fk in [FlipKind::VecTag, FlipKind::VectorTag, FlipKind::Bits, FlipKind::VecTagViaMutate, FlipKind::BitsSpare] {
+            for l in &lens {
+                for r in [(0u32, 2u32), (1, 2), (2, 2), (2, 1)] {
+                    v.push(Case::FlipLong(fk, false, r, *l));
+                }
+                v.push(Case::FlipLong(fk, true, (1, *l as u32), *l));
+            }
+        }
+        for gk in [GenomeKind::Vector, GenomeKind::Plushy] {
+            for l in if quick { vec![1000usize, 4097, 65_537] } else { vec![1000usize, 4097, 65_536, 65_537, 100_003] } {
+                for (a, d) in [((1u32, 2u32), (1u32, 2u32)), ((1, 1), (0, 1)), ((0, 1), (0, 1)), ((1, 2), (1, 1))] {
+                    v.push(Case::UmadLong(gk, a, d, l, 1));
+                }
             }
         }
     }
@@ -732,6 +801,7 @@ pub fn cases(quick: bool) -> Vec<Case> {
 
 pub fn run_case(c: &Case) -> (u64, u64, Option<(String, String)>, usize) {
     match c {
+        Case::FlipLong(fk, ool, r, l) => flip_long_case(*fk, *ool, *r, *l),
         Case::UmadReuse(a, e, d, l, ef, m) => umad_reuse_case(*a, *e, *d, *l, *ef, *m),
         Case::UmadLong(gk, a, d, l, dev) => umad_long_case(*gk, *a, *d, *l, *dev),
         Case::Flip(fk, ool, r, l, m) => flip_case(*fk, *ool, *r, *l, *m),
@@ -741,6 +811,7 @@ pub fn run_case(c: &Case) -> (u64, u64, Option<(String, String)>, usize) {
 
 fn case_json(c: &Case) -> Value {
     match c {
+        Case::FlipLong(fk, ool, r, l) => json!({"check":"C11","scenario":"flip-long","kind":format!("{fk:?}"),"one_over_length":ool,"rate":[r.0,r.1],"l":l}),
         Case::UmadReuse(a, e, d, l, ef, m) => json!({"check":"C11","scenario":"umad-reuse","a":[a.0,a.1],"e":[e.0,e.1],"d":[d.0,d.1],"l":l,"empty_first":ef,"m":m}),
         Case::UmadLong(gk, a, d, l, dev) => json!({"check":"C11","scenario":"umad-long","genome":format!("{gk:?}"),"a":[a.0,a.1],"d":[d.0,d.1],"l":l,"dev":dev}),
         Case::Flip(fk, ool, r, l, m) => json!({"check":"C11","scenario":"flip","kind":format!("{fk:?}"),"one_over_length":ool,"rate":[r.0,r.1],"l":l,"m":m}),
@@ -773,7 +844,7 @@ pub fn run(run: &mut Run) {
     run.states = cs.len() as u64;
     run.traces_validated = run.evaluations;
     run.distinct_nontrivial = nontrivial;
-    run.rule = "WithRate / WithOneOverLength on Vec<TagBit>, Vector<TagBit>, Bitstring (each also held in a buffer with spare capacity) and through Mutate; Umad (new / new_with_empty_rate / new_without_empty) on Vector<Gene>, Plushy (instruction genes, and parents whose even positions are close markers) and Bitstring, through &, by value and through Mutate; all parent lengths 0..L, all lattice rates, all grid word sequences, and (lengths <= 3 for flips, <= 2 for UMAD) all sequences over the grid plus the extreme words 0 and all-ones; plus UMAD on long parents (64..257, thorough 31..300) under every stream with at most 1 (2) non-default words; plus one Umad::new_with_empty_rate value applied to an empty and a non-empty parent in either order (all lattice rates for the three parameters; parents of 1, 2 (whole tree) and 37 genes (every stream with at most one non-default word)), both outputs judged; structural oracle on every leaf (positions preserved, subsequence order, at most one insertion per parent position, provenance of new genes, boundary rates). non-trivial = scenarios with more than one distinct output".into();
+    run.rule = "WithRate / WithOneOverLength on Vec<TagBit>, Vector<TagBit>, Bitstring (each also held in a buffer with spare capacity) and through Mutate; Umad (new / new_with_empty_rate / new_without_empty) on Vector<Gene>, Plushy (instruction genes, and parents whose even positions are close markers) and Bitstring, through &, by value and through Mutate; all parent lengths 0..L, all lattice rates, all grid word sequences, and (lengths <= 3 for flips, <= 2 for UMAD) all sequences over the grid plus the extreme words 0 and all-ones; plus UMAD on long parents (64..257, thorough 31..300) under every stream with at most 1 (2) non-default words, and on parents of 1000..65537 genes with the deviation among the first 24 words; the flip mutators on genomes of 9..70, around 128 and 256, 1000, 4097, 65537 genes (thorough every length up to 300 and more) on every stream with at most one non-default word among the first 24; plus one Umad::new_with_empty_rate value applied to an empty and a non-empty parent in either order (all lattice rates for the three parameters; parents of 1, 2 (whole tree) and 37 genes (every stream with at most one non-default word)), both outputs judged; structural oracle on every leaf (positions preserved, subsequence order, at most one insertion per parent position, provenance of new genes, boundary rates). non-trivial = scenarios with more than one distinct output".into();
     run.bound("max_parent_length", json!(if run.quick() { 3 } else { 4 }));
     run.bound("rates", json!(if run.quick() { "{0, 1/2, 1, 2}" } else { "{0, 1/4, 1/2, 3/4, 1, 2}" }));
     run.assumptions = vec!["structure is rate independent: lattice rates reach both outcomes of every coin".into()];
@@ -792,6 +863,13 @@ pub fn replay(v: &Value) -> bool {
                 .find(|k| Some(format!("{k:?}").as_str()) == v["kind"].as_str())
                 .unwrap_or(FlipKind::VecTag);
             Case::Flip(fk, v["one_over_length"].as_bool().unwrap_or(false), pair(&v["rate"]), l, m)
+        }
+        Some("flip-long") => {
+            let fk = [FlipKind::VecTag, FlipKind::VectorTag, FlipKind::Bits, FlipKind::VecTagViaMutate, FlipKind::VecSpare, FlipKind::VectorSpare, FlipKind::BitsSpare]
+                .into_iter()
+                .find(|k| Some(format!("{k:?}").as_str()) == v["kind"].as_str())
+                .unwrap_or(FlipKind::VecTag);
+            Case::FlipLong(fk, v["one_over_length"].as_bool().unwrap_or(false), pair(&v["rate"]), l)
         }
         Some("umad-reuse") => Case::UmadReuse(pair(&v["a"]), pair(&v["e"]), pair(&v["d"]), l, v["empty_first"].as_bool().unwrap_or(true), m),
         Some("umad-long") => {
